@@ -420,14 +420,22 @@ class AstInfo:
         start_line = scope_line_range(self.ast)[0]
         # Whether the scope is selected by `only_cover_lines` is decided for the scope
         # itself; the definitions that contain it can only exclude it.
-        return self._in_cover(start_line) and all(
-            scope_line_range(definition_node)[0] not in self.module.no_cover_lines
-            for definition_node in nodes_of_class(
-                self.module.module_ast, (ast.FunctionDef, ast.AsyncFunctionDef, ast.ClassDef)
+        return (
+            self._in_cover(start_line)
+            and all(
+                scope_line_range(definition_node)[0] not in self.module.no_cover_lines
+                for definition_node in nodes_of_class(
+                    self.module.module_ast, (ast.FunctionDef, ast.AsyncFunctionDef, ast.ClassDef)
+                )
+                if scope_line_range(definition_node)[0]
+                <= start_line
+                <= scope_line_range(definition_node)[1]
             )
-            if scope_line_range(definition_node)[0]
-            <= start_line
-            <= scope_line_range(definition_node)[1]
+            # A scope that is defined inside an excluded block (e.g., the body of an
+            # ``if FLAG:  # pragma: no cover``) is excluded together with that block.
+            and AstInfo(
+                ast=cast("ScopeNode", self.module.module_ast), module=self.module
+            ).should_cover_line(start_line)
         )
 
     def should_cover_line(self, lineno: int) -> bool:
